@@ -281,6 +281,9 @@ def oracle_c11(b, report):
         if content is not None and not op.get('boot_info_table'):
             if b.img[start:start + len(content)] != content:
                 report('eltorito-boot-bytes', 'the sector the boot entry for %s points at does not hold the boot file bytes' % bf, None)
+        if e['boot_indicator'] != (0x88 if op.get('bootable', True) else 0):
+            report('eltorito-boot-indicator', 'boot entry for %s has indicator 0x%02x, bootable=%s was requested'
+                   % (bf, e['boot_indicator'], op.get('bootable', True)), None)
         if 'boot_load_size' in op and e['sector_count'] != op['boot_load_size']:
             report('eltorito-load-size', 'load size %d recorded, %d requested' % (e['sector_count'], op['boot_load_size']), None)
         if 'media_name' in op and MEDIA.get(op['media_name']) is not None and e['media_type'] != MEDIA[op['media_name']]:
